@@ -19,7 +19,7 @@ FX_NAN = 0x7fffffffffffffff
 FX_MAX = FX_NAN - 1
 
 UN = ["neg", "abs", "isnan", "floor", "ceil", "sin", "cos", "tan", "atan", "asin", "acos", "sqrt", "sqrt_abacus", None,
-      None, None, None, "sin_angle_fx", "cos_angle_fx", "tan_angle_fx"]          # index = fm_un_op; None: not constexpr by design
+      None, None, None, "sin_angle_fx", "cos_angle_fx", "tan_angle_fx", "addeq_self", "subeq_self", "muleq_self", "diveq_self"]          # index = fm_un_op; None: not constexpr by design
 UN_EXPR = {
  "neg": "(-fx(a)).v", "abs": "abs(fx(a)).v", "isnan": "(isnan(fx(a)) ? 1 : 0)", "floor": "floor(fx(a)).v", "ceil": "ceil(fx(a)).v",
  "sin": "sin(fx(a)).v", "cos": "cos(fx(a)).v", "tan": "tan(fx(a)).v", "atan": "atan(fx(a)).v", "asin": "asin(fx(a)).v", "acos": "acos(fx(a)).v",
@@ -94,6 +94,10 @@ template<int = 0> constexpr i64 W_addeq(i64 a, i64 b) { fixed_t x{fx(a)}; x += f
 template<int = 0> constexpr i64 W_subeq(i64 a, i64 b) { fixed_t x{fx(a)}; x -= fx(b); return x.v; }
 template<int = 0> constexpr i64 W_muleq(i64 a, i64 b) { fixed_t x{fx(a)}; x *= fx(b); return x.v; }
 template<int = 0> constexpr i64 W_diveq(i64 a, i64 b) { fixed_t x{fx(a)}; x /= fx(b); return x.v; }
+template<int = 0> constexpr i64 W_addeq_self(i64 a) { fixed_t x{fx(a)}; x += x; return x.v; }
+template<int = 0> constexpr i64 W_subeq_self(i64 a) { fixed_t x{fx(a)}; x -= x; return x.v; }
+template<int = 0> constexpr i64 W_muleq_self(i64 a) { fixed_t x{fx(a)}; x *= x; return x.v; }
+template<int = 0> constexpr i64 W_diveq_self(i64 a) { fixed_t x{fx(a)}; x /= x; return x.v; }
 template<int = 0> constexpr i64 W_shl(i64 a, int r) { return (fx(a) << r).v; }
 template<int = 0> constexpr i64 W_shr(i64 a, int r) { return (fx(a) >> r).v; }
 template<int HOW, typename T> constexpr i64 W_from(T n) { if constexpr (HOW==0) return fixed_t{n}.v; else if constexpr (HOW==1) { if constexpr (std::is_integral_v<T>) return integral_to_fixed(n).v; else return floating_point_to_fixed(n).v; } else return make_fixed(n).v; }
